@@ -26,7 +26,8 @@ RULE = ("template-directed generation over all templates (every template in ever
         "low bits, 0-255 acks, 0-255 extra bytes, trailing Single blocks omitted, default-filled blocks with random "
         "unset variables. distinct_nontrivial = distinct (message, block-count vector, flags, #acks, #extra, unset set)"
         ". Round-5 additions: every third round trip, the datagram is decoded again the proxy's way (body on demand), one header property of the received message (extra bytes set / zeroed / cleared, ZEROCODED flipped, acks set / cleared, packet id, RELIABLE flipped, two edits at once; a fifth of them after the body was looked at) is changed and the message encoded again: it must decode to the same blocks with the edited header and equal the reference encoding. Every sixth case is repeated through a serializer / deserializer pair built on a caller-supplied template (hv/custom_template.py: same names, other wire types for ~20% of the variables), then the stock pair again. Which Fixed/Variable fields are text is the harness's own copy of the naming rule, not the template object's answer"
-        ". Rounds 6-7: the same round trips through a pair built on a caller-supplied template file that is revised in place (same / older time stamp); shared serializer and deserializer called from four threads at once; a fingerprint of the stock template dictionary is compared after custom dictionaries were built")
+        ". Rounds 6-7: the same round trips through a pair built on a caller-supplied template file that is revised in place (same / older time stamp); shared serializer and deserializer called from four threads at once; a fingerprint of the stock template dictionary is compared after custom dictionaries were built"
+        ". Round 8: coordinates of a decoded message edited in place, then the same datagram decoded again (the second result is the datagram's)")
 ASSUMPTIONS = [
     "value domain = the decoder's canonical Python forms: str without trailing NUL for text-named Variable fields, "
     "bytes otherwise; float32-representable F32s; NaN excluded; quaternion W derived from X,Y,Z",
